@@ -43,7 +43,8 @@ PROBES = ["key_update", "key_update_requested", "simultaneous_keyupdate",
           "pha", "heartbeat", "heartbeat_short_padding", "tls13", "legacy",
           "illegal_heartbeat", "illegal_ccs", "illegal_certificate",
           "illegal_finished", "ku_not_aligned", "nst", "secrets_checked",
-          "pha_order_checked", "resumed", "hrr"]
+          "pha_order_checked", "resumed", "hrr",
+          "heartbeat_record_boundary"]
 COMPONENTS_REAL = ["tlslite post-handshake paths: KeyUpdate, PHA, "
                    "heartbeat, NewSessionTicket processing in readAsync"]
 COMPONENTS_STUB = ["socket", "os.urandom", "clock"]
@@ -216,6 +217,7 @@ def run(job, streams=None):
     hb_sent = {"c": [], "s": []}
     wrote = {"c": 0, "s": 0}
     pha_count = 0
+    big_hb = [0]
     nrounds = 1 + ch.draw(6, "r.n")
     script_log = []
     for r in range(nrounds):
@@ -238,9 +240,31 @@ def run(job, streams=None):
                         probes["key_update_requested"] = 1
                     probes["key_update"] = 1
                 elif k == 2 and can_hb[w]:
-                    pl = scen.payload(9, len(hb_sent[w]) * 40,
-                                      ch.draw(40, "r.hbl"))
                     pad = [16, 17, 64, 15, 0][ch.draw(5, "r.hbp")]
+                    hbl = ch.draw(40, "r.hbl")
+                    bx = ch.draw(8, "r.hbexact")
+                    if bx in (1, 2) and big_hb[0] < 2:
+                        # message length exactly / one below the sender's
+                        # record size (type + length + payload + padding);
+                        # longer ones are not heartbeat messages (RFC 6520)
+                        hbl = max(0, min(conns[w].recordSize, conns[
+                            "s" if w == "c" else "c"].recordSize) - 3 -
+                            max(pad, 16) + (bx - 2))
+                        big_hb[0] += 1
+                        probes["heartbeat_record_boundary"] = 1
+                    # RFC 6520 s4: a heartbeat message fits into one record
+                    # (what happens to a longer one is not specified here)
+                    # ... and so must the echo, in the other direction
+                    other = "s" if w == "c" else "c"
+                    room = min(conns[w].recordSize,
+                               conns[other].recordSize) - 3
+                    if room < 16:
+                        continue
+                    if hbl + pad > room:
+                        if pad > 16:
+                            pad = 16
+                        hbl = max(0, min(hbl, room - pad))
+                    pl = scen.payload(9, len(hb_sent[w]) * 40, hbl)
                     ops.append([w, "hb", pl.hex(), pad])
                     if pad >= 16:
                         hb_sent[w].append(pl)
